@@ -25,6 +25,7 @@ PROPS = {
     "C01": "vf.harness.deser_e2e",
     "C02": "vf.harness.deser_e2e",
     "C03": "vf.harness.C03",
+    "C04": "vf.harness.C04",
 }
 
 
@@ -68,9 +69,10 @@ def worker(job):
     t0 = time.time()
     out = {"job": job, "status": "error", "failures": []}
     try:
-        from vf.patches import install_proxy_aliases
+        from vf.patches import install_any_method_stub, install_proxy_aliases
 
         install_proxy_aliases()
+        install_any_method_stub()
         from vf.engine import explore, run_concrete
 
         H = harness_module(job["harness"])
